@@ -98,10 +98,11 @@ func c10Failover(cc c10Cell, env *Env) CellResult {
 }
 
 func c10TTLs(tier string) []time.Duration {
-	base := []time.Duration{time.Nanosecond, time.Microsecond, time.Second, 5 * time.Minute, 24 * time.Hour, 10 * 365 * 24 * time.Hour}
+	base := []time.Duration{time.Nanosecond, time.Microsecond, time.Second, 5 * time.Minute, 24 * time.Hour, 10 * 365 * 24 * time.Hour,
+		100 * 365 * 24 * time.Hour} // -100y puts the expiry instant before the Unix epoch (negative timestamp)
 	if tier == "thorough" {
 		base = append(base, 2*time.Nanosecond, 7*time.Nanosecond, 333*time.Millisecond, time.Hour+time.Nanosecond,
-			20*time.Second, 100*365*24*time.Hour, 3*time.Nanosecond, 999*time.Nanosecond)
+			20*time.Second, 250*365*24*time.Hour, 3*time.Nanosecond, 999*time.Nanosecond)
 	}
 
 	return base
